@@ -34,14 +34,15 @@ Definition scalar_text (v : gval) : option text :=
   | VJson s => Some s
   | _ => None
   end.
+(* float2IntText: int64(f) for negative f, uint64(f) otherwise: the integer part's decimal text *)
 Definition float_u64_text (v : gval) : pres text :=
   match v with
-  | VFloat _ f => match float_to_u64 f with Some u => POk (dec_text u) | None => PUnmodelled end
+  | VFloat _ f => match float_to_i64 f with Some z => POk (dec_text z) | None => PUnmodelled end
   | _ => PUnmodelled
   end.
 
 (* ---- CommonStrParser ---- *)
-(* findInterfaceID: Some id / None = skipped ; a nil element makes reflect.TypeOf(nil).String() panic *)
+(* findInterfaceID: Some id / None = skipped (a message is printed) *)
 Definition common_find_iface (iv : gval) : pres (option pid) :=
   let sw := sw_common_findInterfaceID in
   let t := type_of iv in
@@ -49,7 +50,7 @@ Definition common_find_iface (iv : gval) : pres (option pid) :=
   else if ty_in sw TjsonNumber t then match iv with VJson s => POk (Some (PText s)) | _ => PUnmodelled end
   else if ty_in sw Tint t then match scalar_text iv with Some s => POk (Some (PText s)) | None => PUnmodelled end
   else if ty_in sw Tfloat64 t then pbind (float_u64_text iv) (fun s => POk (Some (PText s)))
-  else match iv with VNil => PPanic | _ => POk None end.
+  else POk None.
 
 Definition common_parse_assign (v : gval) : pres (list pid) :=
   pbind (nil_interface v) (fun isnil =>
@@ -86,15 +87,15 @@ Definition common_parse_value (v : gval) : pres (list pid) :=
   let t := type_of v in
   if ty_in sw Tstring t then match scalar_text v with Some s => POk [PText s] | None => PUnmodelled end
   else if ty_in sw Tfloat64 t then pbind (float_u64_text v) (fun s => POk [PText s])
-  else if ty_in sw TSfloat64 t then   (* %v of the float element itself, not of its integer part *)
-    match v with VSlice _ _ vs => pmap_list (fun e => match e with VFloat _ f => POk (PText (f_text f)) | _ => PUnmodelled end) vs
+  else if ty_in sw TSfloat64 t then
+    match v with VSlice _ _ vs => pmap_list (fun e => pbind (float_u64_text e) (fun s => POk (PText s))) vs
                | _ => PUnmodelled end
   else if ty_in sw TSint t then
     match v with VSlice _ _ vs => pmap_list (fun e => match scalar_text e with Some s => POk (PText s) | None => PUnmodelled end) vs
                | _ => PUnmodelled end
   else if ty_in sw TSiface t then
     match v with VList _ vs => pmap_list common_alloc_iface vs | _ => PUnmodelled end
-  else match v with VNil => PPanic | _ => PErr end.   (* reflect.TypeOf(nil).String() *)
+  else PErr.
 
 (* ---- parser.ParseIntegerNumber ---- *)
 Definition parse_integer_number (f2i : bool) (v : gval) : pres Z :=
@@ -143,7 +144,7 @@ Definition number_parse_value (v : gval) : pres (list pid) :=
     match v with VSlice _ _ vs => pbind (pmap_list (parse_integer_number true) vs) (fun zs => POk (map u zs)) | _ => PUnmodelled end
   else if ty_in sw TSiface t then
     match v with VList _ vs => pbind (pmap_list (parse_integer_number true) vs) (fun zs => POk (map u zs)) | _ => PUnmodelled end
-  else match v with VNil => PPanic | _ => PErr end.
+  else PErr.
 Definition number_parse_assign (v : gval) : pres (list pid) :=
   pbind (nil_interface v) (fun isnil => if isnil then POk [] else number_parse_value v).
 
@@ -169,7 +170,9 @@ Definition range_desc (s : text) : option (Z * Z * Z) :=
       | Some st =>
         match rest with
         | [] => Some (st, e, 1)
-        | c :: _ => match parse_int_text c with Some sp => Some (st, e, sp) | None => None end
+        | c :: _ => match parse_int_text c with
+                    | Some sp => if sp <? 1 then None else Some (st, e, sp)
+                    | None => None end
         end
       end
     end
@@ -255,7 +258,7 @@ Definition parse_between (v : gval) : pres (Z * Z) :=
     match v with
     | VStr s => match range_desc s with Some (st, e, _) => fin st e | None => PErr end
     | _ => PUnmodelled end
-  else fin 0 0.    (* no default clause: left = right = 0 *)
+  else PErr.
 
 Inductive vop := OpEQ | OpGT | OpLT | OpBetween | OpOther.
 Definition parse_range (op : vop) (f2i : bool) (v : gval) : pres (Z * Z) :=
